@@ -562,6 +562,156 @@ fn duke_facts(bytes: &[u8], f: &Facts) -> Result<(), String> {
 }
 
 // ------------------------------------------------------------------ running one input
+// ------------------------------------------------------------------ "so that other readers see the same structure"
+/// The value ClassFile::read returns, item by item BY NAME (the crate's public fields), against the independent strict parser of
+/// this harness (fbh::classfile::raw, which takes the items by their JVMS position): two items of equal width exchanged, a tag
+/// given to the wrong alternative or a count read with the wrong width leave read→write byte-exact and still change what the
+/// crate's user sees.  Used on well-formed class files the independent parser accepts (the corpus).
+mod xread {
+	use super::*;
+	use fbh::classfile::raw as ind;
+	macro_rules! same { ($what:expr, $a:expr, $b:expr) => { if ($a as u64) != ($b as u64) { return Err(format!("{}: raw_class_file has {}, the JVMS position holds {}", $what, $a, $b)); } } }
+	fn list<A, B>(what: &str, a: &[A], b: &[B], f: &dyn Fn(&str, &A, &B) -> Result<(), String>) -> Result<(), String> {
+		if a.len() != b.len() { return Err(format!("{what}: raw_class_file has {} entries, the file holds {}", a.len(), b.len())); }
+		for (i, (x, y)) in a.iter().zip(b.iter()).enumerate() { f(&format!("{what}[{i}]"), x, y)?; }
+		Ok(())
+	}
+	fn u16s(what: &str, a: &[u16], b: &[u16]) -> Result<(), String> { list(what, a, b, &|w, x, y| { same!(w, *x, *y); Ok(()) }) }
+	fn constant(w: &str, a: &CpInfo, b: &ind::Const) -> Result<(), String> {
+		use ind::Const as K;
+		match (a, b) {
+			(CpInfo::Utf8 { bytes }, K::Utf8(x)) => if bytes != x { return Err(format!("{w}: Utf8 bytes differ")) },
+			(CpInfo::Integer { bytes }, K::Integer(x)) => same!(format!("{w}.bytes"), *bytes, *x as u32),
+			(CpInfo::Float { bytes }, K::Float(x)) => same!(format!("{w}.bytes"), *bytes, *x),
+			(CpInfo::Long { high_bytes, low_bytes }, K::Long(x)) => { same!(format!("{w}.high_bytes"), *high_bytes, ((*x as u64) >> 32) as u32); same!(format!("{w}.low_bytes"), *low_bytes, *x as u64 as u32); }
+			(CpInfo::Double { high_bytes, low_bytes }, K::Double(x)) => { same!(format!("{w}.high_bytes"), *high_bytes, (*x >> 32) as u32); same!(format!("{w}.low_bytes"), *low_bytes, *x as u32); }
+			(CpInfo::Class { name_index }, K::Class(x)) => same!(format!("{w}.name_index"), *name_index, *x),
+			(CpInfo::String { string_index }, K::String(x)) => same!(format!("{w}.string_index"), *string_index, *x),
+			(CpInfo::Fieldref { class_index, name_and_type_index }, K::Fieldref(x, y)) | (CpInfo::Methodref { class_index, name_and_type_index }, K::Methodref(x, y))
+			| (CpInfo::InterfaceMethodref { class_index, name_and_type_index }, K::InterfaceMethodref(x, y)) => { same!(format!("{w}.class_index"), *class_index, *x); same!(format!("{w}.name_and_type_index"), *name_and_type_index, *y); }
+			(CpInfo::NameAndType { name_index, descriptor_index }, K::NameAndType(x, y)) => { same!(format!("{w}.name_index"), *name_index, *x); same!(format!("{w}.descriptor_index"), *descriptor_index, *y); }
+			(CpInfo::MethodHandle { reference_kind, reference_index }, K::MethodHandle(x, y)) => { same!(format!("{w}.reference_kind"), *reference_kind, *x); same!(format!("{w}.reference_index"), *reference_index, *y); }
+			(CpInfo::MethodType { descriptor_index }, K::MethodType(x)) => same!(format!("{w}.descriptor_index"), *descriptor_index, *x),
+			(CpInfo::Dynamic { bootstrap_method_attr_index, name_and_type_index }, K::Dynamic(x, y)) | (CpInfo::InvokeDynamic { bootstrap_method_attr_index, name_and_type_index }, K::InvokeDynamic(x, y)) => {
+				same!(format!("{w}.bootstrap_method_attr_index"), *bootstrap_method_attr_index, *x); same!(format!("{w}.name_and_type_index"), *name_and_type_index, *y); }
+			(CpInfo::Module { name_index }, K::Module(x)) | (CpInfo::Package { name_index }, K::Package(x)) => same!(format!("{w}.name_index"), *name_index, *x),
+			(a, b) => return Err(format!("{w}: raw_class_file has {a:?}, the file holds a CONSTANT_{}", b.kind_name())),
+		}
+		Ok(())
+	}
+	fn vtype(w: &str, a: &VerificationTypeInfo, b: &ind::VType) -> Result<(), String> {
+		use ind::VType as V; use VerificationTypeInfo as A;
+		match (a, b) {
+			(A::Top {}, V::Top) | (A::Integer {}, V::Integer) | (A::Float {}, V::Float) | (A::Null {}, V::Null) | (A::UnintializedThis {}, V::UninitializedThis) | (A::Long {}, V::Long) | (A::Double {}, V::Double) => {}
+			(A::Object { cpool_index }, V::Object(x)) => same!(format!("{w}.cpool_index"), *cpool_index, *x),
+			(A::Unintialized { offset }, V::Uninitialized(x)) => same!(format!("{w}.offset"), *offset, *x),
+			(a, b) => return Err(format!("{w}: raw_class_file has {a:?}, the file holds {b:?}")),
+		}
+		Ok(())
+	}
+	fn frame(w: &str, a: &StackMapFrame, b: &ind::Frame) -> Result<(), String> {
+		use ind::Frame as F; use StackMapFrame as A;
+		match (a, b) {
+			(A::SameFrame { offset_delta }, F::Same { offset_delta: x }) => same!(format!("{w}.offset_delta"), *offset_delta, *x),
+			(A::SameLocals1StackItemFrame { offset_delta, stack }, F::SameLocals1 { offset_delta: x, stack: y }) => { same!(format!("{w}.offset_delta"), *offset_delta, *x); vtype(&format!("{w}.stack"), stack, y)?; }
+			(A::SameLocals1StackItemFrameExtended { offset_delta, stack }, F::SameLocals1Ext { offset_delta: x, stack: y }) => { same!(format!("{w}.offset_delta"), *offset_delta, *x); vtype(&format!("{w}.stack"), stack, y)?; }
+			(A::ChopFrame { k, offset_delta }, F::Chop { k: x, offset_delta: y }) => { same!(format!("{w}.k"), *k, *x); same!(format!("{w}.offset_delta"), *offset_delta, *y); }
+			(A::SameFrameExtended { offset_delta }, F::SameExt { offset_delta: x }) => same!(format!("{w}.offset_delta"), *offset_delta, *x),
+			(A::AppendFrame { offset_delta, locals }, F::Append { offset_delta: x, locals: y }) => { same!(format!("{w}.offset_delta"), *offset_delta, *x); list(&format!("{w}.locals"), locals, y, &vtype)?; }
+			(A::FullFrame { offset_delta, locals, stack }, F::Full { offset_delta: x, locals: y, stack: z }) => { same!(format!("{w}.offset_delta"), *offset_delta, *x); list(&format!("{w}.locals"), locals, y, &vtype)?; list(&format!("{w}.stack"), stack, z, &vtype)?; }
+			(a, b) => return Err(format!("{w}: raw_class_file has {a:?}, the file holds {b:?}")),
+		}
+		Ok(())
+	}
+	fn element(w: &str, a: &ElementValue, b: &ind::ElementValue) -> Result<(), String> {
+		use ind::ElementValue as E; use ElementValue as A;
+		let konst = |tag: u8, idx: u16| -> Result<(), String> { match b { E::Const { tag: t, index } if *t == tag => { same!(format!("{w}.const_value_index"), idx, *index); Ok(()) } other => Err(format!("{w}: raw_class_file has the tag {:?}, the file holds {other:?}", tag as char)) } };
+		match a {
+			A::Byte { const_value_index } => konst(b'B', *const_value_index), A::Char { const_value_index } => konst(b'C', *const_value_index), A::Double { const_value_index } => konst(b'D', *const_value_index),
+			A::Float { const_value_index } => konst(b'F', *const_value_index), A::Integer { const_value_index } => konst(b'I', *const_value_index), A::Long { const_value_index } => konst(b'J', *const_value_index),
+			A::Short { const_value_index } => konst(b'S', *const_value_index), A::Boolean { const_value_index } => konst(b'Z', *const_value_index), A::String { const_value_index } => konst(b's', *const_value_index),
+			A::Enum { type_name_index, const_name_index } => match b { E::Enum { type_name_index: x, const_name_index: y } => { same!(format!("{w}.type_name_index"), *type_name_index, *x); same!(format!("{w}.const_name_index"), *const_name_index, *y); Ok(()) } o => Err(format!("{w}: raw_class_file has an enum constant, the file holds {o:?}")) },
+			A::Class { class_info_index } => match b { E::Class(x) => { same!(format!("{w}.class_info_index"), *class_info_index, *x); Ok(()) } o => Err(format!("{w}: raw_class_file has a class, the file holds {o:?}")) },
+			A::Annotation { annotation_value } => match b { E::Annotation(x) => annotation(&format!("{w}.annotation_value"), annotation_value, x), o => Err(format!("{w}: raw_class_file has an annotation, the file holds {o:?}")) },
+			A::Array { values } => match b { E::Array(x) => list(&format!("{w}.values"), values, x, &element), o => Err(format!("{w}: raw_class_file has an array, the file holds {o:?}")) },
+		}
+	}
+	fn annotation(w: &str, a: &Annotation, b: &ind::Annotation) -> Result<(), String> {
+		same!(format!("{w}.type_index"), a.type_index, b.type_index);
+		list(&format!("{w}.element_value_pairs"), &a.element_value_pairs, &b.pairs, &|w, x, y| { same!(format!("{w}.element_name_index"), x.element_name_index, y.0); element(&format!("{w}.value"), &x.value, &y.1) })
+	}
+	fn attribute(w: &str, a: &AttributeInfo, b: &ind::Attribute) -> Result<(), String> {
+		use ind::AttrInfo as I; use AttributeInfo as A;
+		// a predefined name in a place where the JVMS does not define it is opaque for the independent parser: nothing to compare
+		if let I::Unknown(bytes) = &b.info { if let A::Other { attribute_name_index, info } = a { same!(format!("{w}.attribute_name_index"), *attribute_name_index, b.name_index); if info != bytes { return Err(format!("{w}: info bytes differ")); } } return Ok(()); }
+		let w = &format!("{w} ({})", b.name);
+		macro_rules! ani { ($x:expr) => { same!(format!("{w}.attribute_name_index"), *$x, b.name_index) } }
+		match (a, &b.info) {
+			(A::ConstantValue { attribute_name_index, constantvalue_index }, I::ConstantValue(x)) => { ani!(attribute_name_index); same!(format!("{w}.constantvalue_index"), *constantvalue_index, *x); }
+			(A::Code { attribute_name_index, max_stack, max_locals, code, exception_table, attributes }, I::Code(c)) => {
+				ani!(attribute_name_index); same!(format!("{w}.max_stack"), *max_stack, c.max_stack); same!(format!("{w}.max_locals"), *max_locals, c.max_locals);
+				if code != &c.code { return Err(format!("{w}.code: bytes differ")); }
+				list(&format!("{w}.exception_table"), exception_table, &c.exception_table, &|w, x, y| { same!(format!("{w}.start_pc"), x.start_pc, y.start_pc); same!(format!("{w}.end_pc"), x.end_pc, y.end_pc); same!(format!("{w}.handler_pc"), x.handler_pc, y.handler_pc); same!(format!("{w}.catch_type"), x.catch_type, y.catch_type); Ok(()) })?;
+				list(&format!("{w}.attributes"), attributes, &c.attributes, &attribute)?;
+			}
+			(A::StackMapTable { attribute_name_index, entries }, I::StackMapTable(x)) => { ani!(attribute_name_index); list(&format!("{w}.entries"), entries, x, &frame)?; }
+			(A::Exceptions { attribute_name_index, exception_index_table }, I::Exceptions(x)) => { ani!(attribute_name_index); u16s(&format!("{w}.exception_index_table"), exception_index_table, x)?; }
+			(A::InnerClasses { attribute_name_index, classes }, I::InnerClasses(x)) => { ani!(attribute_name_index); list(&format!("{w}.classes"), classes, x, &|w, p, q| {
+				same!(format!("{w}.inner_class_info_index"), p.inner_class_info_index, q.inner_class_info_index); same!(format!("{w}.outer_class_info_index"), p.outer_class_info_index, q.outer_class_info_index);
+				same!(format!("{w}.inner_name_index"), p.inner_name_index, q.inner_name_index); same!(format!("{w}.inner_class_access_flags"), p.inner_class_access_flags, q.inner_class_access_flags); Ok(()) })?; }
+			(A::EnclosingMethod { attribute_name_index, class_index, method_index }, I::EnclosingMethod { class_index: x, method_index: y }) => { ani!(attribute_name_index); same!(format!("{w}.class_index"), *class_index, *x); same!(format!("{w}.method_index"), *method_index, *y); }
+			(A::Synthetic { attribute_name_index }, I::Synthetic) | (A::Deprecated { attribute_name_index }, I::Deprecated) => ani!(attribute_name_index),
+			(A::Signature { attribute_name_index, signature_index }, I::Signature(x)) => { ani!(attribute_name_index); same!(format!("{w}.signature_index"), *signature_index, *x); }
+			(A::SourceFile { attribute_name_index, sourcefile_index }, I::SourceFile(x)) => { ani!(attribute_name_index); same!(format!("{w}.sourcefile_index"), *sourcefile_index, *x); }
+			(A::SourceDebugExtension { attribute_name_index, debug_extension }, I::SourceDebugExtension(x)) => { ani!(attribute_name_index); if debug_extension != x { return Err(format!("{w}.debug_extension: bytes differ")); } }
+			(A::LineNumberTable { attribute_name_index, line_number_table }, I::LineNumberTable(x)) => { ani!(attribute_name_index); list(&format!("{w}.line_number_table"), line_number_table, x, &|w, p, q| { same!(format!("{w}.start_pc"), p.start_pc, q.start_pc); same!(format!("{w}.line_number"), p.line_number, q.line); Ok(()) })?; }
+			(A::LocalVariableTable { attribute_name_index, local_variable_table }, I::LocalVariableTable(x)) => { ani!(attribute_name_index); list(&format!("{w}.local_variable_table"), local_variable_table, x, &|w, p, q| {
+				same!(format!("{w}.start_pc"), p.start_pc, q.start_pc); same!(format!("{w}.length"), p.length, q.length); same!(format!("{w}.name_index"), p.name_index, q.name_index);
+				same!(format!("{w}.descriptor_index"), p.descriptor_index, q.descriptor_index); same!(format!("{w}.index"), p.index, q.index); Ok(()) })?; }
+			(A::LocalVariableTypeTable { attribute_name_index, local_variable_type_table }, I::LocalVariableTypeTable(x)) => { ani!(attribute_name_index); list(&format!("{w}.local_variable_type_table"), local_variable_type_table, x, &|w, p, q| {
+				same!(format!("{w}.start_pc"), p.start_pc, q.start_pc); same!(format!("{w}.length"), p.length, q.length); same!(format!("{w}.name_index"), p.name_index, q.name_index);
+				same!(format!("{w}.signature_index"), p.signature_index, q.descriptor_index); same!(format!("{w}.index"), p.index, q.index); Ok(()) })?; }
+			(A::RuntimeVisibleAnnotations { attribute_name_index, annotations }, I::RuntimeVisibleAnnotations(x)) | (A::RuntimeInvisibleAnnotations { attribute_name_index, annotations }, I::RuntimeInvisibleAnnotations(x)) => { ani!(attribute_name_index); list(&format!("{w}.annotations"), annotations, x, &annotation)?; }
+			(A::RuntimeVisibleParameterAnnotations { attribute_name_index, parameter_annotations }, I::RuntimeVisibleParameterAnnotations(x)) | (A::RuntimeInvisibleParameterAnnotations { attribute_name_index, parameter_annotations }, I::RuntimeInvisibleParameterAnnotations(x)) => {
+				ani!(attribute_name_index); list(&format!("{w}.parameter_annotations"), parameter_annotations, x, &|w, p, q| list(&format!("{w}.annotations"), &p.annotations, q, &annotation))?; }
+			(A::AnnotationDefault { attribute_name_index, default_value }, I::AnnotationDefault(x)) => { ani!(attribute_name_index); element(&format!("{w}.default_value"), default_value, x)?; }
+			(A::BootstrapMethods { attribute_name_index, bootstrap_methods }, I::BootstrapMethods(x)) => { ani!(attribute_name_index); list(&format!("{w}.bootstrap_methods"), bootstrap_methods, x, &|w, p, q| { same!(format!("{w}.bootstrap_method_ref"), p.bootstrap_method_ref, q.method_ref); u16s(&format!("{w}.bootstrap_arguments"), &p.boostrap_arguments, &q.arguments) })?; }
+			(A::MethodParameters { attribute_name_index, parameters }, I::MethodParameters(x)) => { ani!(attribute_name_index); list(&format!("{w}.parameters"), parameters, x, &|w, p, q| { same!(format!("{w}.name_index"), p.name_index, q.name_index); same!(format!("{w}.access_flags"), p.access_flags, q.access_flags); Ok(()) })?; }
+			(A::Module { attribute_name_index, module_name_index, module_flags, module_version_index, requires, exports, opens, uses_index, provides }, I::Module(m)) => {
+				ani!(attribute_name_index); same!(format!("{w}.module_name_index"), *module_name_index, m.name_index); same!(format!("{w}.module_flags"), *module_flags, m.flags); same!(format!("{w}.module_version_index"), *module_version_index, m.version_index);
+				list(&format!("{w}.requires"), requires, &m.requires, &|w, p, q| { same!(format!("{w}.requires_index"), p.requires_index, q.index); same!(format!("{w}.requires_flags"), p.requires_flags, q.flags); same!(format!("{w}.requires_version_index"), p.requires_version_index, q.version_index); Ok(()) })?;
+				list(&format!("{w}.exports"), exports, &m.exports, &|w, p, q| { same!(format!("{w}.exports_index"), p.exports_index, q.index); same!(format!("{w}.exports_flags"), p.exports_flags, q.flags); u16s(&format!("{w}.exports_to_index"), &p.exports_to_index, &q.to) })?;
+				list(&format!("{w}.opens"), opens, &m.opens, &|w, p, q| { same!(format!("{w}.opens_index"), p.opens_index, q.index); same!(format!("{w}.opens_flags"), p.opens_flags, q.flags); u16s(&format!("{w}.opens_to_index"), &p.opens_to_index, &q.to) })?;
+				u16s(&format!("{w}.uses_index"), uses_index, &m.uses)?;
+				list(&format!("{w}.provides"), provides, &m.provides, &|w, p, q| { same!(format!("{w}.provides_index"), p.provides_index, q.index); u16s(&format!("{w}.provides_with_index"), &p.provides_with_index, &q.with) })?;
+			}
+			(A::ModulePackages { attribute_name_index, package_index }, I::ModulePackages(x)) => { ani!(attribute_name_index); u16s(&format!("{w}.package_index"), package_index, x)?; }
+			(A::ModuleMainClass { attribute_name_index, main_class_index }, I::ModuleMainClass(x)) => { ani!(attribute_name_index); same!(format!("{w}.main_class_index"), *main_class_index, *x); }
+			(A::NestHost { attribute_name_index, host_class_index }, I::NestHost(x)) => { ani!(attribute_name_index); same!(format!("{w}.host_class_index"), *host_class_index, *x); }
+			(A::NestMembers { attribute_name_index, classes }, I::NestMembers(x)) | (A::PermittedSubclasses { attribute_name_index, classes }, I::PermittedSubclasses(x)) => { ani!(attribute_name_index); u16s(&format!("{w}.classes"), classes, x)?; }
+			(A::Record { attribute_name_index, components }, I::Record(x)) => { ani!(attribute_name_index); list(&format!("{w}.components"), components, x, &|w, p, q| { same!(format!("{w}.name_index"), p.name_index, q.name_index); same!(format!("{w}.descriptor_index"), p.descriptor_index, q.descriptor_index); list(&format!("{w}.attributes"), &p.attributes, &q.attributes, &attribute) })?; }
+			// attributes the crate keeps as opaque bytes (type annotations, anything it does not model): only the name
+			(A::Other { attribute_name_index, .. }, _) => ani!(attribute_name_index),
+			(a, _) => return Err(format!("{w}: raw_class_file read it as {}", format!("{a:?}").split(' ').next().unwrap_or("?"))),
+		}
+		Ok(())
+	}
+	pub fn class(a: &ClassFile, b: &ind::RawClass) -> Result<(), String> {
+		same!("minor_version", a.minor_version, b.minor); same!("major_version", a.major_version, b.major);
+		same!("constant_pool_count", 1 + indices_used(&a.constant_pool), b.pool.len());
+		let mut idx = 1usize;
+		for c in &a.constant_pool {
+			match b.pool.get(idx) { Some(Some(k)) => constant(&format!("constant_pool[index {idx}]"), c, k)?, _ => return Err(format!("constant_pool: raw_class_file has an entry at index {idx}, the file has none starting there")) }
+			idx += if is_wide(c) { 2 } else { 1 };
+		}
+		same!("access_flags", a.access_flags, b.access); same!("this_class", a.this_class, b.this_class); same!("super_class", a.super_class, b.super_class);
+		u16s("interfaces", &a.interfaces, &b.interfaces)?;
+		list("fields", &a.fields, &b.fields, &|w, p, q| { same!(format!("{w}.access_flags"), p.access_flags, q.access); same!(format!("{w}.name_index"), p.name_index, q.name_index); same!(format!("{w}.descriptor_index"), p.descriptor_index, q.descriptor_index); list(&format!("{w}.attributes"), &p.attributes, &q.attributes, &attribute) })?;
+		list("methods", &a.methods, &b.methods, &|w, p, q| { same!(format!("{w}.access_flags"), p.access_flags, q.access); same!(format!("{w}.name_index"), p.name_index, q.name_index); same!(format!("{w}.descriptor_index"), p.descriptor_index, q.descriptor_index); list(&format!("{w}.attributes"), &p.attributes, &q.attributes, &attribute) })?;
+		list("attributes", &a.attributes, &b.attributes, &attribute)
+	}
+}
+
 fn hex(b: &[u8]) -> String { b.iter().map(|x| format!("{x:02x}")).collect::<Vec<_>>().join("") }
 fn has_wide(c: &ClassFile) -> bool { c.constant_pool.iter().any(is_wide) }
 
@@ -645,12 +795,27 @@ fn through_bytes(r: &mut Report, stream: &str, b: &[u8], origin: &str, emit: boo
 			let out = impl_write(v);
 			let same = out.as_ref().map(|o| o.as_slice() == &b[..*pos]).unwrap_or(false);
 			g = format!("(Ok ({}, {}, {}))", g_nv(&nv_of(v)), b.len() - pos, gbool(same));
+			// whatever was read (well-formed input or not): the reader consumed exactly as many bytes as the value it returned announces
+			match impl_length(v) {
+				Ok(l) if l == *pos => r.count("read_consumed_equals_length"),
+				other => r.violation(format!("ClassFile::read consumed {pos} bytes, but length() of the value it returned is {other:?}"), replay("the number of bytes ClassFile::read takes from the reader differs from ClassFile::length() of the value read", format!("consumed: {pos}
+length(): {other:?}
+rewritten: {:?}", out.as_ref().map(|o| hex(o))))),
+			}
 			r.count(if same { "read_ok_rewrite_exact" } else { "read_ok_rewrite_differs" });
 			if let Ok(wide) = &wf {
 				if !same || *pos != b.len() {
 					r.violation("a well-formed class file is not reproduced byte for byte".into(), replay("read then to_bytes differs from the input (input accepted by the strict JVMS walker)", format!("rewritten: {:?}", out.as_ref().map(|o| hex(o)))));
 				} else {
 					r.count(if *wide { "wellformed_byte_exact_wide_pool" } else { "wellformed_byte_exact" });
+					// "other readers see the same structure": every item the crate hands out by name is the item at that JVMS position
+					match guarded(|| fbh::classfile::raw::parse(b)) {
+						Ok(Ok(ind)) => match xread::class(v, &ind) {
+							Ok(()) => r.count("cross_read_items_by_name_ok"),
+							Err(e) => r.violation(format!("ClassFile::read hands out another item than the one the JVMS puts there: {e}"), replay("the value read from a well-formed class file differs, item by item (the crate's field names against the JVMS positions, taken by an independent parser), from the file", e.clone())),
+						},
+						_ => r.count("cross_read_skipped_not_semantically_valid"),
+					}
 					if *wide != has_wide(v) { r.violation("the value read and the 4.4.5 walk of the input disagree about Long/Double entries".into(), replay("has_wide(read(b)) differs from the walker's answer", String::new())); }
 					if let Ok(o) = &out { if impl_length(v).ok() != Some(o.len()) { r.violation("length() differs from bytes written after read".into(), replay("length()", String::new())); } }
 				}
@@ -779,6 +944,33 @@ fn crafted_positions() -> Vec<(String, ClassFile)> {
 	out
 }
 
+/// constant pools that END with an 8-byte constant (legal: bytecode libraries do not order the pool as javac does): the
+/// entry takes the last TWO indices, constant_pool_count is one more than the index of its second half; with and without an
+/// attribute whose name sits in front.  All inside the hypotheses.
+fn pool_tail_values() -> Vec<(String, ClassFile)> {
+	let mut out = vec![];
+	let long = |n: u32| CpInfo::Long { high_bytes: n, low_bytes: !n };
+	let dbl = |n: u32| CpInfo::Double { high_bytes: 0x3ff00000 | n, low_bytes: n };
+	let x = || CpInfo::Utf8 { bytes: b"x".to_vec() };
+	let tails: Vec<(&str, Vec<CpInfo>)> = vec![
+		("a single Long", vec![long(1)]), ("a single Double", vec![dbl(2)]), ("Utf8, Long", vec![x(), long(3)]), ("Utf8, Double", vec![x(), dbl(4)]),
+		("Long, Double", vec![long(5), dbl(6)]), ("Double, Long", vec![dbl(7), long(8)]), ("Integer, Long, Long", vec![CpInfo::Integer { bytes: 9 }, long(10), long(11)]),
+		("three Doubles", vec![dbl(12), dbl(13), dbl(14)]), ("Long, Utf8, Class, Double", vec![long(15), x(), CpInfo::Class { name_index: 3 }, dbl(16)]),
+	];
+	for (what, tail) in tails {
+		for with_attr in [false, true] {
+			let mut pool = vec![];
+			let mut attributes = vec![];
+			if with_attr { pool.push(CpInfo::Utf8 { bytes: b"Deprecated".to_vec() }); attributes.push(AttributeInfo::Deprecated { attribute_name_index: 1 }); }
+			pool.extend(tail.clone());
+			let count = 1 + indices_used(&pool);
+			out.push((format!("constant pool ending in an 8-byte constant: {}{what} (constant_pool_count must be {count})", if with_attr { "the name of a Deprecated attribute, " } else { "" }),
+				ClassFile { minor_version: 0, major_version: 52, constant_pool: pool, access_flags: 0x21, this_class: 0, super_class: 0, interfaces: vec![], fields: vec![], methods: vec![], attributes }));
+		}
+	}
+	out
+}
+
 /// deterministic boundary values of every count/length width: (what, value, inside the hypotheses of read_write, also a correspondence case).
 /// The large ones are oracle-only: reading some 10^5 numerals takes coqc longer than the whole quick run.
 fn boundary_values(thorough: bool) -> Vec<(String, ClassFile, bool, bool)> {
@@ -822,7 +1014,7 @@ fn boundary_values(thorough: bool) -> Vec<(String, ClassFile, bool, bool)> {
 	for n in [65535usize, 65536, 70000] {
 		let body: Vec<u8> = (0..n).map(|i| (i * 7 % 251) as u8).collect();
 		out.push((format!("unknown attribute with {n} bytes of info (u32 length)"), class(name("Mystery"), vec![], vec![], vec![AttributeInfo::Other { attribute_name_index: 1, info: body.clone() }]), true, false));
-		out.push((format!("SourceDebugExtension of {n} bytes (u32 length)"), class(name("SourceDebugExtension"), vec![], vec![], vec![AttributeInfo::SourceDebugExtension { attribute_name_index: 1, debug_extension: body.clone() }]), true, false));
+		out.push((format!("SourceDebugExtension of {n} bytes (u32 length)"), class(name("SourceDebugExtension"), vec![], vec![], vec![AttributeInfo::SourceDebugExtension { attribute_name_index: 1, debug_extension: body.clone() }]), true, n == 65536));
 		out.push((format!("Code with {n} bytes of code (u32 code_length)"), class(name("Code"), vec![], vec![MethodInfo { access_flags: 1, name_index: 1, descriptor_index: 1, attributes: vec![AttributeInfo::Code { attribute_name_index: 1, max_stack: 0, max_locals: 0, code: body.clone(), exception_table: vec![], attributes: vec![] }] }], vec![]), true, false));
 	}
 	out
@@ -954,7 +1146,7 @@ fn crafted() -> Vec<(String, Vec<u8>)> {
 pub fn run(ctx: &Ctx) -> anyhow::Result<Report> {
 	let mut r = Report::new("C20", "C20.Run");
 	let mut rng = Rng::new(ctx.seed);
-	r.rule = "streams: corpus (javac 17 --release 8/11/17 classes vendored under corpus/C20, read + rewritten); shared-corpus (every class of corpus/classes — javac 8/11/17 output, 260 third-party/JDK classes, crafted ones; 76 of them with long/double constants — through the oracle, the smaller ones with 8-byte constants also as correspondence cases); raw (random raw ClassFile values over every struct/enum/variant the crate declares, attribute names interned so that tags resolve: inside the hypotheses of read_write); raw-wide (same with Long/Double pool entries in front of and behind the interned attribute names: indices are JVMS indices, an 8-byte constant takes two); valid (small semantically valid classes, also cross-read by duke::read_class and compared with the generator's ground truth); violating (one sub-stream per hypothesis of read_write: frame tags resolving elsewhere, u8 tag overflow, attribute names designating another/no name, count wider than its field); written (bytes the crate wrote, read as input); crafted-lengths (each of the 28 modelled attribute kinds and two unknown ones as the only attribute of a class, attribute_length exact / one too large / one too small: prescribed lengths are refused, computed ones read and repaired); crafted (deterministic edits: wrong magic, pool count 0/1/65535, literal and computed attribute_length off, name index 0 / not Utf8 / past the pool / unknown name, giant counts, every truncation, trailing bytes; pools with 8-byte constants announced with every count around the right one, attribute names designating every index of such a pool incl. the unusable second index of a Long/Double — refused with an error, never a panic); mutated (1-3 byte edits/truncations of corpus and written files); nested (element values in arrays 1..2000 deep, annotations in annotations 10/500 deep, Code in Code 3..600 deep, Record in Record 10/300 deep: the recursion of reader, writer and length; the deepest oracle-only, with a crumb in case the process dies); positions (the attribute name as the only / first / middle / LAST pool entry, directly behind or in front of 8-byte constants, x six attribute kinds on class, field and method; a third of the raw values also end their pool with the name of their last attribute); boundary / boundary-violating (254..257 elements under a u8 count, 255/256/65535/65536/70000 under u16 counts and lengths incl. Utf8, constant_pool_count 65535 and 0 with one- and two-index entries, an attribute name at index 65534, attribute bodies of 65535/65536/70000 bytes under u32 lengths; the large ones oracle-only). Oracle on the implementation alone: length()==bytes written, write()==to_bytes() also through writers accepting 7..64 bytes per call, interrupted writers, a 16-byte BufWriter over them and an exact-length slice, an error into a slice one byte short, read(to_bytes(v))==v, files accepted by an independent strict JVMS walker are reproduced byte for byte and files the crate writes are accepted by it. Every byte-string correspondence case carries the walker's verdict, which the model compares with the strict reader generated from the hand-written JVMS table of coq/C20/Jvms.v (the notion of well-formedness of C20_reads_every_wellformed_class / C20_strict_accepts_iff). Non-trivial: non-empty pool or attributes / more than 24 bytes; distinct by Debug text or bytes.".into();
+	r.rule = "streams: corpus (javac 17 --release 8/11/17 classes vendored under corpus/C20, read + rewritten); shared-corpus (every class of corpus/classes — javac 8/11/17 output, 260 third-party/JDK classes, crafted ones; 76 of them with long/double constants — through the oracle, the smaller ones with 8-byte constants also as correspondence cases); raw (random raw ClassFile values over every struct/enum/variant the crate declares, attribute names interned so that tags resolve: inside the hypotheses of read_write); raw-wide (same with Long/Double pool entries in front of and behind the interned attribute names: indices are JVMS indices, an 8-byte constant takes two); valid (small semantically valid classes, also cross-read by duke::read_class and compared with the generator's ground truth); violating (one sub-stream per hypothesis of read_write: frame tags resolving elsewhere, u8 tag overflow, attribute names designating another/no name, count wider than its field); written (bytes the crate wrote, read as input); crafted-lengths (each of the 28 modelled attribute kinds and two unknown ones as the only attribute of a class, attribute_length exact / one too large / one too small: prescribed lengths are refused, computed ones read and repaired); crafted (deterministic edits: wrong magic, pool count 0/1/65535, literal and computed attribute_length off, name index 0 / not Utf8 / past the pool / unknown name, giant counts, every truncation, trailing bytes; pools with 8-byte constants announced with every count around the right one, attribute names designating every index of such a pool incl. the unusable second index of a Long/Double — refused with an error, never a panic); mutated (1-3 byte edits/truncations of corpus and written files); nested (element values in arrays 1..2000 deep, annotations in annotations 10/500 deep, Code in Code 3..600 deep, Record in Record 10/300 deep: the recursion of reader, writer and length; the deepest oracle-only, with a crumb in case the process dies); pool-tail (pools ENDING in a Long / Double, alone or behind other entries, with and without an attribute: constant_pool_count judged directly and by the walker, value and bytes both correspondence cases); positions (the attribute name as the only / first / middle / LAST pool entry, directly behind or in front of 8-byte constants, x six attribute kinds on class, field and method; a third of the raw values also end their pool with the name of their last attribute); boundary / boundary-violating (254..257 elements under a u8 count, 255/256/65535/65536/70000 under u16 counts and lengths incl. Utf8, constant_pool_count 65535 and 0 with one- and two-index entries, an attribute name at index 65534, attribute bodies of 65535/65536/70000 bytes under u32 lengths; the large ones oracle-only, except the 65536-byte SourceDebugExtension, which is a correspondence case in a shard of its own). Oracle on the implementation alone: length()==bytes written, write()==to_bytes() also through writers accepting 7..64 bytes per call, interrupted writers, a 16-byte BufWriter over them and an exact-length slice, an error into a slice one byte short, read(to_bytes(v))==v, every successful read consumed exactly length() of the value it returned (well-formed input or not), files accepted by an independent strict JVMS walker are reproduced byte for byte and — where the harness' independent semantic parser also accepts them (corpus, valid) — every item of the value read (the crate's public field names) equals the item at that JVMS position and files the crate writes are accepted by it. Every byte-string correspondence case carries the walker's verdict, which the model compares with the strict reader generated from the hand-written JVMS table of coq/C20/Jvms.v (the notion of well-formedness of C20_reads_every_wellformed_class / C20_strict_accepts_iff). Non-trivial: non-empty pool or attributes / more than 24 bytes; distinct by Debug text or bytes.".into();
 	let (n_raw, n_valid, n_viol, n_mut) = if ctx.thorough { (3000, 900, 270, 3000) } else { (320, 100, 54, 300) };
 	r.shard_size = if ctx.thorough { 170 } else { 62 };
 
@@ -1021,6 +1213,17 @@ pub fn run(ctx: &Ctx) -> anyhow::Result<Report> {
 	for (what, c) in crafted_positions() {
 		if let Some(b) = through_value(&mut r, "positions", &c, Some(true), true) { through_bytes(&mut r, "positions-bytes", &b, &what, false); if b.len() <= 500 { seeds.push(b); } }
 		r.count("crafted_positions");
+	}
+	for (what, c) in pool_tail_values() {
+		// the count the JVMS prescribes, judged here directly (besides the walker): bytes 8..10 of the written file
+		let want = 1 + indices_used(&c.constant_pool);
+		if let Some(b) = through_value(&mut r, "pool-tail", &c, Some(true), true) {
+			let got = u16::from_be_bytes([b[8], b[9]]) as usize;
+			if got != want { r.violation(format!("constant_pool_count written as {got}, the pool takes up {} indices: JVMS 4.1 prescribes {want}", want - 1), format!("property C20, stream pool-tail\n{what}\nraw value:\n{c:?}\nbytes: {}", hex(&b))); }
+			through_bytes(&mut r, "pool-tail-bytes", &b, &what, true);
+			if b.len() <= 500 { seeds.push(b); }
+		}
+		r.count("pool_tail_values");
 	}
 	for (what, c, fits, emit) in boundary_values(ctx.thorough) {
 		let stream = if fits { "boundary" } else { "boundary-violating" };
